@@ -47,7 +47,12 @@ SHAPES = {  # label -> text appended to the argument list of EVERY call of the s
     "star-and-keyword-and-double-star": ["*vf_star_args", "vf_extra=VF_EXTRA_VALUE", "**vf_star_kw"],
     "nested-call-argument": ["vf_nested=vf_inner_fn(vf_inner_arg, 7171)"],
     "keyword-first": None,   # handled specially: a keyword argument is inserted in FRONT of the existing keywords
+    # the same with a trailing comma after the last argument (one-line magic trailing comma; the exploded layouts below add the multi-line form)
+    "star-args+trailing-comma": ["*vf_star_args", ","],
+    "double-star+trailing-comma": ["**vf_star_kw", ","],
+    "extra-keyword+trailing-comma": ["vf_extra=VF_EXTRA_VALUE", ","],
 }
+EXPLODED_OF = ("star-args", "double-star", "star-and-keyword-and-double-star", "extra-keyword")   # these shapes are also produced in black's exploded layout
 def shapes(src):
     """call-shape variants of a seed: extra arguments appended to (or, for keyword-first, inserted into) every call"""
     out = [("orig", src)]
@@ -76,9 +81,10 @@ def shapes(src):
             if any(k.arg is None for k in n.keywords) and any(e.startswith("*") and not e.startswith("**") for e in extra): continue   # nothing positional may follow **
             j = close - 1
             while j >= 0 and src[j] in " \t\r\n": j -= 1
-            text = ", ".join(extra)
+            trailing = "," if extra[-1] == "," else ""
+            text = ", ".join(e for e in extra if e != ",") + trailing
             if src[j] == "(": ins = text
-            elif src[j] == ",": ins = " " + text + ","
+            elif src[j] == ",": ins = " " + text + ("" if trailing else ",")
             else: ins = ", " + text
             edits.append((j + 1, ins))
         if not edits: continue
@@ -87,6 +93,9 @@ def shapes(src):
         try: compile(new, "<shape>", "exec")
         except SyntaxError: continue
         out.append((label, new))
+        if label in EXPLODED_OF:
+            ex = gen.exploded_calls(new)
+            if ex is not None: out.append((label + "+exploded", ex))
     return out
 
 def plan(tier, seed):
